@@ -349,6 +349,24 @@ fn c10_gen_ack_ample_three_runs() {
     gen_ack_case::<6, 100>([RCVD, EMPTY, RCVD, RCVD, EMPTY, RCVD], 5, 1 << 30, Some(64));
 }
 
+// (i') the same on 3-record windows (cheap enough for the quick tier)
+
+/// R . S (largest = newest): one additional range, closed by the start of the window.
+#[kani::proof]
+#[kani::unwind(8)]
+#[kani::stub(tokio::time::Instant::elapsed, stub_elapsed_100us)]
+fn c10_gen_ack_ample_n3_gap() {
+    gen_ack_case::<3, 100>([RCVD, EMPTY, SENT], 2, 61, Some(64));
+}
+
+/// C R R with largest below the newest record: first range of one, nothing else.
+#[kani::proof]
+#[kani::unwind(8)]
+#[kani::stub(tokio::time::Instant::elapsed, stub_elapsed_0)]
+fn c10_gen_ack_ample_n3_inside() {
+    gen_ack_case::<3, 0>([CONFIRMED, RCVD, RCVD], 1, 0, Some(64));
+}
+
 // (ii) every capacity 0..=64 (symbolic) on 3-record windows: fits / Err-iff / truthful / truncation.
 
 /// R . C : the additional range is closed by the end of the window.
@@ -477,6 +495,13 @@ fn c10_rcvd_accept_once_n0() {
 #[kani::proof]
 #[kani::unwind(8)]
 #[kani::stub(tokio::time::Instant::now, stub_now)]
+fn c10_rcvd_accept_once_n1() {
+    accept_once_step::<1>();
+}
+
+#[kani::proof]
+#[kani::unwind(8)]
+#[kani::stub(tokio::time::Instant::now, stub_now)]
 fn c10_rcvd_accept_once_n3() {
     accept_once_step::<3>();
 }
@@ -485,11 +510,7 @@ fn c10_rcvd_accept_once_n3() {
 /// rotate_queue removes exactly the longest prefix of records that may be forgotten: Empty ones and
 /// acknowledged-and-confirmed ones that are non-eliciting or expired; a PacketReceived / AckSent
 /// record (its ACK is not known to have arrived) is never dropped.
-#[kani::proof]
-#[kani::unwind(8)]
-#[kani::stub(tokio::time::Instant::now, stub_now)]
-fn c10_rcvd_rotate_n4() {
-    const N: usize = 4;
+fn rotate_step<const N: usize>() {
     let (mut j, ks) = any_journal::<N>(4, 7);
     let off = j.queue.offset();
     let now = set_any_now();
@@ -519,6 +540,20 @@ fn c10_rcvd_rotate_n4() {
     kani::cover!(expect == 1 && ks[1] == SENT, "stops at an unconfirmed record");
     kani::cover!(expect == N, "window emptied");
     core::mem::forget(j);
+}
+
+#[kani::proof]
+#[kani::unwind(8)]
+#[kani::stub(tokio::time::Instant::now, stub_now)]
+fn c10_rcvd_rotate_n2() {
+    rotate_step::<2>();
+}
+
+#[kani::proof]
+#[kani::unwind(8)]
+#[kani::stub(tokio::time::Instant::now, stub_now)]
+fn c10_rcvd_rotate_n4() {
+    rotate_step::<4>();
 }
 
 // ---- C04: growth of the receive window caused by ONE packet number ---------------------------------
